@@ -21,10 +21,11 @@ def build(repo, spec_dir, canary=False):
 impl VxShow for Component { open spec fn shown(&self) -> Seq<char> { plain(*self) } #[verifier::external_body] fn vx_show(&self) -> (r: String) { unimplemented!() } }
 pub assume_specification [<Quantifier as Clone>::clone] (e: &Quantifier) -> (r: Quantifier) ensures r == *e;''')
     # Display for Quantifier / Component: the fmt bodies as inherent methods vx_fmt (R18)
-    def display_fn(f, ty, spec, props, label):
-        t, _, _ = X.fn(b.src(f), 'fmt', within=r'^impl Display for %s \{' % ty)
+    def display_fn(f, ty, spec, props, label, extra_rules=(), guard='', impl=None):
+        t, _, _ = X.fn(b.src(f), 'fmt', within=r'^impl Display for %s \{' % (impl or ty))
         where = '%s::Display for %s' % (f, ty)
         t = D.strip_attrs_and_docs(t, b.log, where)
+        t = D.apply_rules(t, b.log, where, extra_rules)
         t = fmt_pre(t, b.log, where)
         t = b.reveal_literals(t, LITS, where)
         t = re.sub(r'\bfn fmt\b', 'pub fn vx_fmt', t, count=1)
@@ -33,7 +34,7 @@ pub assume_specification [<Quantifier as Clone>::clone] (e: &Quantifier) -> (r: 
         sig = b._name_ret(sig)
         first = b.lineno()
         b.emit(sig)
-        b._emit_contract(ty + '::fmt', [], [Clause(label, 'final(f)@ =~= old(f)@ + %s && r is Ok' % spec, props)], None, props)
+        b._emit_contract(ty + '::fmt', [], [Clause(label, '%sfinal(f)@ =~= old(f)@ + %s && r is Ok' % (guard, spec), props)], None, props)
         b.emit('    ' + body.lstrip())
         b.fn_ranges.append((first, b.lineno() - 1, ty + '::fmt', ['C07'], ty + '::fmt.safety'))
         b.obligations.append((ty + '::fmt.safety', ['C07']))
@@ -55,6 +56,21 @@ pub assume_specification [<Quantifier as Clone>::clone] (e: &Quantifier) -> (r: 
     b.verified_fn('component.rs', 'to_repr', within=CO, props=['C07'], fname='Component::to_repr', pre=fmt_pre, reveal=LITS,
                   clauses=[Clause('render.repr_plain', '!is_output_colorized ==> r@ =~= plain(*self)', ['C04', 'C08', 'C13', 'C06', 'C15']),
                            Clause('render.repr_colored', 'is_output_colorized ==> colored_ok(r@, *self)', ['C15', 'C04', 'C08'])])
+    b.emit('}')
+    # ---- Display for Grapheme: value, group iff not a single atom, {n} / {m,n} iff quantified (C13, C06, C01)
+    b.type_item('grapheme.rs', r'^pub struct Grapheme \{')
+    b.emit("""#[verifier::external_body] pub fn vx_count_char(s: &String, c: char) -> (r: usize) ensures r == count_char(s@, c) { unimplemented!() }
+#[verifier::external_body] pub fn vx_join_shown(gs: &Vec<Grapheme>) -> (r: String) ensures r@ == joined_shown(gs@) { unimplemented!() }
+pub uninterp spec fn is_class_token(s: Seq<char>) -> bool;
+#[verifier::external_body] pub fn vx_is_class_token(s: &String) -> (r: bool) ensures r == is_class_token(s@) { unimplemented!() }
+impl Grapheme {""")
+    G = r'^impl Grapheme \{'
+    b.assumed_fn('grapheme.rs', 'value', within=G, ensures=['r@ == joined(self.chars@)'], why='Vec<String>::join (std)')
+    b.assumed_fn('grapheme.rs', 'char_count', within=G, ensures=['r == char_count_spec(*self, is_non_ascii_char_escaped)'], why='iterator chains; number of code points of the (escaped) value')
+    display_fn('grapheme.rs', 'Grapheme', 'grapheme_plain(*self)', ['C13', 'C06', 'C01', 'C05', 'C16'], 'render.grapheme_plain', guard='!self.is_output_colorized ==> ',
+               extra_rules=[('R19', r"self\.chars\[0\]\.matches\(('(?:\\.|[^'\\])')\)\.count\(\)", r'vx_count_char(&self.chars[0], \1)', 'str::matches(char).count()'),
+                            ('R19', r'self\s*\.repetitions\s*\.iter\(\)\s*\.map\(\|it\| it\.to_string\(\)\)\s*\.join\(""\)', 'vx_join_shown(&self.repetitions)', 'iter().map(to_string).join(""): concatenation of the Display renderings, in order'),
+                            ('R19', r'CHAR_CLASSES\.contains\(&&\*value\)', 'vx_is_class_token(&value)', 'membership in the constant CHAR_CLASSES (affects colour only)')])
     b.emit('}')
     # ---- Display for RegExp: flag / anchors / outer group (C04, C08, C06)
     b.type_item('config.rs', r'^pub struct RegExpConfig \{')
